@@ -178,7 +178,7 @@ var dirtyCheck = hx.NewCheck("parse_after_dirty_release", oracleDirty)
 func TestParseAfterDirtyRelease(t *testing.T) {
 	hx.Rule("parse_after_dirty_release", "before each parse every pool is polluted with fully populated values of every pooled type (through PutX, PutExpression and ReleaseAST); the tree parsed from a G-SQL statement must still equal the model tree exactly; non-trivial = statement uses a node kind the parser draws from a pool (tuple, array, subscript, slice) or >= 6 features; distinct = feature set")
 	dirtyCheck.Rapid(t, hx.N(7500, 60000), func(rt *rapid.T) DirtyCase {
-		g := sqlgen.New(rt, sqlgen.AllFeatures())
+		g := sqlgen.New(rt, sqlgen.FullFeatures())
 		st := sqlgen.Statement(g)
 		var cl []string
 		for k := range st.Stats {
@@ -382,7 +382,7 @@ func ptrs(v reflect.Value, out map[uintptr]string, who string) {
 var holdCheck = hx.NewCheck("held_values_stable", runHold)
 
 func genHoldSQL(rt *rapid.T) string {
-	f := sqlgen.AllFeatures()
+	f := sqlgen.FullFeatures()
 	f.MaxDepth = 2
 	s := sqlgen.SQL(sqlgen.Statement(sqlgen.New(rt, f)).Toks)
 	switch rapid.IntRange(0, 3).Draw(rt, "decor") {
